@@ -246,6 +246,13 @@ def run(tier, replay=None):
         e2e.append({"id": "body|%s" % client, "client": client, "retry": {"max": 3, "initial_ms": 1.0, "factor": 2.0, "max_ms": 3.0},
                     "outcomes": ["s4xx", "s4xx", "s4xx", "s4xx"], "variant": 0, "body_var": 1,
                     "_model": {"outcomes": ["s4xx"], "result": "s4xx", "cfg": "3"}})
+    # a final failure stays final whatever the request's own id is: ids that look like retryable status codes
+    for client in ("streamable", "legacy"):
+        for sid in (408, 409, 429, 500, 502, 503, 504):
+            for v in (0, 1):
+                e2e.append({"id": "id%d-%d|%s" % (sid, v, client), "client": client, "retry": {"max": 3, "initial_ms": 1.0, "factor": 2.0, "max_ms": 3.0},
+                            "outcomes": ["s4xx", "s4xx", "s4xx", "s4xx"], "variant": v, "body_var": 0, "start_id": sid,
+                            "_model": {"outcomes": ["s4xx"], "result": "s4xx", "cfg": "3"}})
     chunks = [e2e[i::nproc] for i in range(nproc)]
 
     def one2(ch):
